@@ -140,6 +140,13 @@ def check(pid, tier, seed, only_report=None):
                 rules[k] = rules.get(k, 0) + v
             for t in u.trusted:
                 trusted.add("verus %s: %s" % (un, t[:200]))
+            for (su, sf, sc) in u.imports:
+                # a shim whose contract text is read from the unit that proves it: not an assumption as long as that unit is built too
+                if su in units:
+                    backends.setdefault("imported_clauses", [])
+                    backends["imported_clauses"].append("%s assumes %s:%s:%s, proved in this run as V:%s:%s:%s (same text)" % (un, su, sf, sc, su, sf, sc))
+                else:
+                    trusted.add("verus %s: shim assumes clause %s:%s:%s of unit %s, which this check does not build" % (un, su, sf, sc, su))
             failed_ids = {}
             # A function's postconditions are proved FROM its loop invariants, proof hints and body-safety obligations (the invariant is
             # assumed at loop exit): when one of those fails, every clause of that function has lost its proof.  Such a failure therefore
